@@ -347,6 +347,14 @@ def power(fi, e, depth=0):
                             if len(elts) > 1:
                                 if isinstance(s.value, ast.Call) and norm(s.value.func) in SVD_NAMES and k == 1 and len(elts) == 3:
                                     pws.add(1)
+                                elif isinstance(s.value, ast.Tuple) and len(s.value.elts) == len(elts):
+                                    vk = s.value.elts[k]
+                                    if isinstance(vk, ast.Subscript) and norm(vk.value) == e.id:
+                                        continue    # a selection of itself
+                                    p, why = power(fi, vk, depth + 1)
+                                    if p is None:
+                                        return None, why
+                                    pws.add(p)
                                 else:
                                     return None, f'`{e.id}` is bound by `{norm(s)[:50]}`'
                             else:
